@@ -79,6 +79,18 @@ pub fn profile(family: &str) -> Profile {
             convert_kinds: &[HKind::Addr, HKind::Sender, HKind::WSender, HKind::Caller],
             ..b
         },
+        // bounded mailboxes under load with restart requests queued between the messages
+        "restart-bp" => Profile {
+            entries: &[Entry::Builder],
+            name: "restart-bp",
+            unbounded_w: 10,
+            max_bound: 3,
+            handler_sleep_pm: 600,
+            strategies: &[Strategy::RestartOnly, Strategy::RecreateFromDefault, Strategy::NonRestartable],
+            w: [42, 10, 5, 3, 1, 16, 1, 1, 2, 3, 2, 2, 8, 5, 0],
+            convert_kinds: &[HKind::Addr, HKind::Sender, HKind::WSender, HKind::Caller],
+            ..b
+        },
         "lifecycle" => Profile {
             name: "lifecycle",
             strategies: &[Strategy::RestartOnly, Strategy::RecreateFromDefault, Strategy::NonRestartable],
